@@ -405,12 +405,16 @@ func c15() []*Ob {
 				}
 			}},
 		{Prop: "C15", ID: "C15.4", Engine: "DOM+ORDER", Floor: 2,
-			Desc: "suicide waits for a running seal: proxyFrac.Suicide waits on sealWg only when trySetSuicided reported sealing, re-reads the state after the wait, and trySetSuicided clears active/sealed only when not sealing",
+			Desc: "suicide waits for a running seal: proxyFrac.Suicide waits on sealWg only when trySetSuicided reported sealing, re-reads the state after the wait, and trySetSuicided clears active/sealed only when not sealing; proxyFrac.Seal signals sealWg.Done only after it has stored the sealed fraction and cleared the active one (a waiter woken earlier re-reads the sealing state and deletes the active files while the published sealed files stay)",
 			Check: func(c *Ctx) {
 				fn := c.Fn("(*fracmanager.proxyFrac).Suicide")
 				try := c.Fn("(*fracmanager.proxyFrac).trySetSuicided")
 				if fn == nil || try == nil {
 					return
+				}
+				// the waiter is woken only after the hand-over: what it re-reads is the sealed fraction
+				if sealFn := c.Fn("(*fracmanager.proxyFrac).Seal"); sealFn != nil {
+					PrecedeI(c, sealFn, FieldStore("fracmanager.proxyFrac", "active"), "the hand-over f.sealed = sealed; f.active = nil", CallSel(OnField(Callee("(*sync.WaitGroup).Done"), "fracmanager.proxyFrac", "sealWg")), "sealWg.Done()")
 				}
 				tryM := Callee("(*fracmanager.proxyFrac).trySetSuicided")
 				waitM := OnField(Callee("(*sync.WaitGroup).Wait"), "fracmanager.proxyFrac", "sealWg")
